@@ -97,7 +97,15 @@ func c05Scenarios(u *uni.U, gen *wh.CPGen, la, lb wh.LogCfg) []c05Scenario {
 		o.Req.Label = o.Label
 		return o
 	}
+	// S15: the same log has been written eight times before two growths overlap
+	// (whatever a store keeps per write - a history, a revision count - is full).
+	initA4x8 := []wh.Req{up(la, m, 0, 4).Req}
+	for i := 0; i < 7; i++ {
+		initA4x8 = append(initA4x8, up(la, m, 4, 4).Req)
+	}
 	return []c05Scenario{
+		{Name: "S15", Props: "C05", Why: "two growths from 4 overlapping on a log that has already been written eight times", Init: initA4x8,
+			Threads: [][]c05Op{{up(la, m, 4, 6)}, {up(la, f4, 4, 6)}, {get(la)}}},
 		{Name: "S7", Props: "C03 C05 C09", Why: "a refused update (garbage proof, or stale once the other one is in) overlapping an accepted growth", Init: initA4,
 			Threads: [][]c05Op{{up(la, m, 4, 6)}, {badProof(up(la, m, 4, 6))}, {get(la), get(la)}}},
 		{Name: "S8", Props: "C03", Why: "a refused same-size fork (root mismatch) overlapping a refresh and a growth", Init: initA4,
@@ -113,10 +121,10 @@ func c05Scenarios(u *uni.U, gen *wh.CPGen, la, lb wh.LogCfg) []c05Scenario {
 			Threads: [][]c05Op{{up(la, m, 4, 4)}, {up(la, m, 4, 4)}, {up(la, m, 4, 6)}, {get(la)}}},
 		{Name: "S14", Props: "C01 C12", Why: "a growth and a fork of log A from the same size while log B is refreshed (B's write must not bring A's old state back)", Init: []wh.Req{up(la, m, 0, 4).Req, up(lb, m, 0, 3).Req},
 			Threads: [][]c05Op{{up(la, m, 4, 6)}, {up(lb, m, 3, 3)}, {up(la, f4, 4, 6)}}},
-		{Name: "S1", Props: "C05 C01 C03", Why: "conflicting first use (the one that loses is refused and must leave the winner's checkpoint in place)", Threads: [][]c05Op{{up(la, m, 0, 4)}, {up(la, f0, 0, 4)}, {get(la)}}},
+		{Name: "S1", Props: "C05 C01 C03 C08", Why: "conflicting first use (the one that loses is refused and must leave the winner's checkpoint in place)", Threads: [][]c05Op{{up(la, m, 0, 4)}, {up(la, f0, 0, 4)}, {get(la)}}},
 		{Name: "S2", Props: "C05 C01 C09", Why: "two growths from 4, each valid alone, together a split view", Init: initA4,
 			Threads: [][]c05Op{{up(la, m, 4, 6)}, {up(la, f4, 4, 6)}, {get(la), get(la)}}},
-		{Name: "S3", Props: "C05 C04 C09", Why: "growth vs refresh: lost update / regression", Init: initA4,
+		{Name: "S3", Props: "C05 C04 C09 C08", Why: "growth vs refresh: lost update / regression", Init: initA4,
 			Threads: [][]c05Op{{up(la, m, 4, 6)}, {up(la, m, 4, 4)}, {get(la), get(la)}}},
 		{Name: "S4", Props: "C05 C12", Why: "different logs must not conflict", Init: []wh.Req{up(la, m, 0, 2).Req},
 			Threads: [][]c05Op{{up(la, m, 2, 4)}, {up(lb, m, 0, 3)}, {logs, get(la)}}},
